@@ -179,8 +179,10 @@ def check_case(ctx, recipe, built, c, geom_kind, geom, buffer, variant, items) -
                 sig = 'unmaskable-variable-altered'
             ctx.oracle_fail(sig, {**desc, 'var': name},
                             f'{name}: clipped values {g.tolist()} expected {exp.tolist()}'[:500])
-        if dict(got.attrs).keys() != dict(da.attrs).keys():
-            ctx.oracle_fail('attributes-lost', {**desc, 'var': name}, f'{name}: attrs {dict(got.attrs)} were {dict(da.attrs)}')
+        # an attribute may legitimately have moved into the encoding (decoded `_FillValue`)
+        lost = [k for k in da.attrs if k not in got.attrs and k not in got.encoding]
+        if lost:
+            ctx.oracle_fail('attributes-lost', {**desc, 'var': name}, f'{name}: attributes {lost} lost (attrs {dict(got.attrs)}, were {dict(da.attrs)})')
     for k, v in ds.attrs.items():
         if out.attrs.get(k) != v:
             ctx.oracle_fail('global-attributes-lost', desc, f'global attribute {k} lost')
